@@ -2,11 +2,14 @@
 ROOT="$(cd "$(dirname "$(readlink -f "$0")")" && pwd)"; export MC_VERIF_ROOT="$ROOT"
 # Build the harness against a scratch copy of /repo in which the two target_pointer_width="16"
 # predicates of src/graphics.rs are flipped, so the real 16-bit take_u32/nth_u32 bodies are
-# compiled on this host.  The copy lives in /tmp and is removed by ./check.
+# compiled on this host.  The copy lives in /tmp only while this script runs (serialised by a lock, so checks started
+# in parallel do not disturb each other) and is removed before it returns.
 set -e
 src=/tmp/mipidsi-verif-ptr16-src
 tdir="$ROOT/target/ptr16"
-[ -n "${MIPIDSI_SRC:-}" ] && { src=/tmp/mipidsi-verif-ptr16-src-alt; tdir="${MC_TARGET_BASE:-/tmp/mc-target}/ptr16"; }
+[ -n "${MIPIDSI_SRC:-}" ] && { src="${MC_TARGET_BASE:-/tmp/mc-target}/ptr16-src"; tdir="${MC_TARGET_BASE:-/tmp/mc-target}/ptr16"; }
+mkdir -p "$tdir"; exec 9>"$tdir.lock"; flock 9
+trap 'rm -rf "$src"' EXIT
 rm -rf "$src"; mkdir -p "$src"
 # copy the working tree (tracked + modified files), preserving mtimes so cargo can reuse its cache
 ( cd "${MIPIDSI_SRC:-/repo}" && tar --exclude=./target --exclude=./.git -cf - . ) | ( cd "$src" && tar -xpf - )
